@@ -11,7 +11,8 @@ from readers import gaf_record, line_at, load_pickle, read_text, run_cli, write_
 
 def gfa_text(segs, links):
     lines = []
-    for n, s in segs.items():
+    # segment lines are deliberately NOT in offset order (a contig inserted in reverse has descending SO in real rGFAs)
+    for n, s in sorted(segs.items(), key=lambda kv: (-kv[1]["so"], kv[0])):
         seq = "".join("ACGT"[(5 * i + len(n) + s["so"]) % 4] for i in range(s["ln"]))
         lines.append(f"S\t{n}\t{seq}\tLN:i:{s['ln']}\tSN:Z:{s['sn']}\tSO:i:{s['so']}\tSR:i:{s['sr']}")
     for l in links:
@@ -94,6 +95,11 @@ def run_session(job):
     bgzf = storage == "bgzf"
     try:
         segs = segs_of(st["ref"], [tuple(h) for h in st["hap"]], base=opts.get("hapbase", 1))
+        scale = opts.get("scale", 1)
+        if scale > 1:       # the same session on a larger scale: coordinates with different numbers of digits
+            for g in segs.values():
+                g["so"] *= scale
+                g["ln"] *= scale
         gfa = os.path.join(d, "g.gfa" + (".gz" if gfa_gz else ""))
         write_text(gfa, gfa_text(segs, st["links"]), "gz" if gfa_gz else "plain")
         ulines = make_records(segs, st["walks"], rnd)
@@ -117,7 +123,7 @@ def run_session(job):
                 cu = os.path.join(d, "conv_u.gaf")
                 r = run_cli(["view", F, "-g", gfa, "-f", "unstable", "-o", cu])
                 conv = open(cu).read().splitlines() if r["status"] == "ok" else None
-            c = {"id": f"{sid}.{fmt}", "mode": mode, "truncated": False, "segs": segs, "file": [abstract(l) for l in lines], "fmt": fmt,
+            c = {"id": f"{sid}.{fmt}", "mode": mode, "truncated": False, "sampled": scale > 1, "segs": segs, "file": [abstract(l) for l in lines], "fmt": fmt,
                  "storage": storage, "gfa_gz": gfa_gz, "session": {k: st[k] for k in ("ref", "hap", "extra", "avoid")}}
             gvi = F + ".gvi"
             r = run_cli(["index", F, gfa])
@@ -163,7 +169,14 @@ def run_session(job):
                 else:
                     ctgs = sorted({s["sn"] for s in segs.values()})
                     clen = {g: max(s["so"] + s["ln"] for s in segs.values() if s["sn"] == g) for g in ctgs}
-                    regs = [{"ctg": g, "a": a, "b": b} for g in ctgs for a in range(clen[g]) for b in range(a, clen[g])]
+                    if scale > 1:   # regions around every node boundary instead of all of them
+                        regs = []
+                        for g in ctgs:
+                            pts = sorted({p for s_ in segs.values() if s_["sn"] == g for p in (s_["so"] - 1, s_["so"], s_["so"] + 1, s_["so"] + s_["ln"] - 1, s_["so"] + s_["ln"]) if 0 <= p < clen[g]} | {0, 2, 9, 10, clen[g] - 1})
+                            pts = [p for p in pts if 0 <= p < clen[g]]
+                            regs += [{"ctg": g, "a": a, "b": b} for a in pts for b in pts if a <= b]
+                    else:
+                        regs = [{"ctg": g, "a": a, "b": b} for g in ctgs for a in range(clen[g]) for b in range(a, clen[g])]
                     qs = []
                     ntimeouts = 0
                     flagdir = opts.get("flagdir")
@@ -194,7 +207,7 @@ def run_session(job):
                 c.update({"cat_status": "", "cat_pos": [], "queries": [], "fqueries": [], "rqueries": []})
             cases.append(c)
         if slines is None or len(slines) != len(ulines):
-            cases.append({"id": f"{sid}.stable", "mode": mode, "truncated": False, "segs": segs, "file": [], "fmt": "stable", "index_status": "whole_file_conversion_failed",
+            cases.append({"id": f"{sid}.stable", "mode": mode, "truncated": False, "sampled": scale > 1, "segs": segs, "file": [], "fmt": "stable", "index_status": "whole_file_conversion_failed",
                           "idx": [], "cat_status": "", "cat_pos": [], "queries": [], "fqueries": [], "rqueries": []})
         return cases
     finally:
@@ -214,7 +227,7 @@ def run_mode(ctx, mode):
                 continue
             k += 1
             sid = f"{cfg[10:-4]}-{k}"
-            jobs.append((sid, st, mode, "bgzf" if k % 2 else "plain", k % 3 == 0, ctx.seed * 7919 + k, {"flagdir": flagdir}))
+            jobs.append((sid, st, mode, "bgzf" if k % 2 else "plain", k % 3 == 0, ctx.seed * 7919 + k, {"flagdir": flagdir, "scale": 7 if k % 5 == 0 else 1}))
     if ctx.thorough and len(jobs) > 6000:
         rnd = random.Random(ctx.seed)
         jobs = rnd.sample(jobs, 6000)
